@@ -18,7 +18,7 @@ def run(ctx):
     quick = ctx.tier == "quick"
     ctx.build_harness()
     ctx.tlc_must_pass("MC_Renderer", "MC_Renderer_q" if quick else "MC_Renderer_t", timeout=3000)
-    r = gencheck.run_gen(ctx, 60 if quick else 1500)
+    r = gencheck.run_gen(ctx, 60 if quick else 6000)
     for d in r["diags"]["rend"]:
         cls = rendcheck.classify(d)
         if cls in ("sel", "vm", "raster", "pipe"):
